@@ -19,7 +19,7 @@ import os
 CH = {"a": "a", "b": "b", "E": "é", "_": " ", "N": "\n"}
 FUNS = {"inc": "fun(x: Int): Int { x + 1 }", "dbl": "fun(x: Int): Int { x * 2 }", "neg": "fun(x: Int): Int { 0 - x }",
         "pos": "fun(x: Int): Bool { x > 0 }", "even": "fun(x: Int): Bool { x % 2 == 0 }", "all": "fun(_: Int): Bool { True }"}
-GROUPS = ["str1", "str2", "replace", "substring", "join", "list"]
+GROUPS = ["str1", "str2", "overlap", "replace", "substring", "join", "list"]
 TICKS = 200000
 
 
@@ -130,7 +130,7 @@ def run(tier, seed):
     ck = Check("C32", "model_checking", tier, seed)
     calls = []
     for g in GROUPS:
-        r = mc(g, 2 if tier == "quick" else (3 if g in ("str2", "replace", "substring") else 4))
+        r = mc(g, 2 if tier == "quick" else (3 if g in ("str2", "replace", "substring", "overlap") else 4))
         ck.add_tlc(r)
         calls += list(r.tag("CALL"))
     vacuity(len(calls) > 20000, f"calls enumerated by TLC ({len(calls)})")
@@ -162,7 +162,7 @@ def run(tier, seed):
     vacuity(len(fns) >= 32, f"functions exercised: {sorted(fns)}")
     ck.assumptions += ["whitespace for trim* is the space character; an empty needle means index 0 / the characters (PINNED in Prelude.tla)",
                        "map and filter are exercised with three function arguments each",
-                       "strings over {a, b, e-acute, space, newline}, needles up to 2 characters, integers at the index boundaries {-2..4, 99}, integer lists up to 3 items"]
+                       "strings over {a, b, e-acute, space, newline}, needles up to 2 characters (plus strings of up to 5-6 characters over {a, b} with needles up to 3, for self-overlapping needles), integers at the index boundaries {-2..4, 99}, integer lists up to 3 items"]
     return ck.finish(rule="every argument tuple enumerated by MC_Prelude: strings up to 2 (quick) / 3-4 (thorough) characters x needles up to 2, index pairs over 8 boundary integers, lists up to 3 items; non-trivial = calls with a multi-byte character or a newline",
                      extra={"functions": sorted(fns)})
 
